@@ -76,30 +76,11 @@ Proof.
   - apply nth_buf. lia.
 Qed.
 
-Lemma precedes_window_eq b e bl br :
-  precedes_window b e bl br =
-  rmax (fun i => vmin (rmin (fun j => nth j bl bot) 0 i) (nth i br bot)) b (S e - b).
-Proof.
-  unfold precedes_window, rmax.
-  rewrite (fold_left_vmax_acc (fun i => vmin (fold_left (fun c j => vmin c (nth j bl bot)) (seq 0 i) top) (nth i br bot))).
-  rewrite vmax_bot_l. f_equal. apply map_ext. intros i.
-  rewrite fold_left_vmin_acc, vmin_top_l. reflexivity.
-Qed.
-
+(* PrecedesTimedOperation.update is the window of the offline visitTimedPrecedes
+   (OfflineCorrect.precedes_window_eq, precedes_window_buf) *)
 Lemma precedes_step f g b e k : b <= e ->
   precedes_window b e (buf top (r f) (S k) e) (buf bot (r g) (S k) e) = r (Precedes b e f g) k.
-Proof.
-  intros Hbe. rewrite precedes_window_eq. cbn [rho]. rewrite wmax_rmax.
-  apply rmax_ext. intros i Hi. rewrite vmin_comm. f_equal.
-  - rewrite nth_buf by lia. replace (S k + i <? S e) with (i + k <? e).
-    + destruct (i + k <? e); [reflexivity|]. f_equal. lia.
-    + destruct (i + k <? e) eqn:E1; destruct (S k + i <? S e) eqn:E2; try reflexivity;
-      [apply Nat.ltb_lt in E1; apply Nat.ltb_ge in E2|apply Nat.ltb_ge in E1; apply Nat.ltb_lt in E2]; lia.
-  - apply rmin_ext. intros j Hj. rewrite nth_buf by lia. replace (S k + j <? S e) with (j + k <? e).
-    + destruct (j + k <? e); [reflexivity|]. f_equal. lia.
-    + destruct (j + k <? e) eqn:E1; destruct (S k + j <? S e) eqn:E2; try reflexivity;
-      [apply Nat.ltb_lt in E1; apply Nat.ltb_ge in E2|apply Nat.ltb_ge in E1; apply Nat.ltb_lt in E2]; lia.
-Qed.
+Proof. intros Hbe. rewrite precedes_window_buf by exact Hbe. reflexivity. Qed.
 
 Lemma since_spec_S (r1 r2 : nat -> V) j :
   since_spec r1 r2 0 (S j) = vmax (vmin (r1 (S j)) (since_spec r1 r2 0 j)) (r2 (S j)).
@@ -560,10 +541,10 @@ Proof.
 Qed.
 
 Theorem online_offline (p : formula) :
-  1 <= n -> past_only p = true -> wf_bounds p = true -> no_precedes p = true -> wf_trace p w n ->
+  1 <= n -> past_only p = true -> wf_bounds p = true -> wf_trace p w n ->
   snd (mon_run AR pk [p] dict_init w 0 n) = eval_off AR pk p w n.
 Proof.
-  intros Hn Hp Hb Hnp Hw. rewrite (eval_off_correct AR pk p w n Hn Hb Hnp Hw).
+  intros Hn Hp Hb Hw. rewrite (eval_off_correct AR pk p w n Hn Hb Hw).
   apply (online_correct [p] n); [discriminate|]. intros x [<-|[]]. auto.
 Qed.
 
